@@ -153,6 +153,13 @@ MergeOps(sc) ==
                   !.ord = FALSE, !.idx = FALSE, !.nsrc = 2, !.closed = (h = "leftsemi" /\ sc.closed)]>> :
         t \in {"T2"}, h \in {"inner", "left", "right", "outer", "leftsemi"}, s \in (IF Focus \in {"filter", "project", "general"} THEN SuffixPairs ELSE {<<"_x", "_y">>})}
 
+(* merge_asof on the (sorted) index: defined while the rows still are in source order under their source labels *)
+AsofOps(sc) ==
+    IF sc.kind # "frame" \/ sc.nsrc >= 2 \/ ~sc.ord \/ ~sc.idx \/ Focus \notin {"partitioned", "general", "project"} THEN {} ELSE
+    {<<[op |-> "mergeasof", other |-> "T2", dir |-> d, by |-> b],
+       [sc EXCEPT !.cols = MergedCols(sc.cols, SrcCols("T2"), SeqRange(b), <<"_x", "_y">>), !.ord = TRUE, !.idx = TRUE, !.nsrc = 2, !.closed = FALSE]>> :
+        d \in {"backward", "forward", "nearest"}, b \in {<<>>} \cup (IF Has(sc.cols, "b") THEN {<<"b">>} ELSE {})}
+
 ConcatOps(sc) ==
     IF sc.kind # "frame" \/ sc.nsrc >= 2 THEN {} ELSE
     {<<[op |-> "concat", other |-> "T2", join |-> j],
@@ -205,18 +212,23 @@ SelfBinOps(sc) ==
 Ops(sc) ==
     IF sc.kind = "frame" /\ Len(sc.cols) = 0 THEN {} ELSE
     CASE Focus = "filter"  -> FilterOps(sc) \cup ProjOps(sc) \cup RenameOps(sc) \cup ElemOps(sc) \cup MergeOps(sc) \cup SortOps(sc) \cup LayoutOps(sc) \cup AssignOps(sc) \cup ReduceOps(sc)
-      [] Focus = "project" -> ProjOps(sc) \cup RenameOps(sc) \cup AssignOps(sc) \cup MergeOps(sc) \cup GroupOps(sc) \cup SortOps(sc) \cup ConcatOps(sc) \cup ElemOps(sc) \cup RowOps(sc) \cup FilterOps(sc) \cup ReduceOps(sc) \cup LayoutOps(sc)
-      [] Focus = "partitioned" -> ReduceOps(sc) \cup GroupOps(sc) \cup MergeOps(sc) \cup ConcatOps(sc) \cup SortOps(sc) \cup RowOps(sc) \cup SelfBinOps(sc) \cup FilterOps(sc) \cup ElemOps(sc)
+      [] Focus = "project" -> ProjOps(sc) \cup RenameOps(sc) \cup AssignOps(sc) \cup MergeOps(sc) \cup AsofOps(sc) \cup GroupOps(sc) \cup SortOps(sc) \cup ConcatOps(sc) \cup ElemOps(sc) \cup RowOps(sc) \cup FilterOps(sc) \cup ReduceOps(sc) \cup LayoutOps(sc)
+      [] Focus = "partitioned" -> ReduceOps(sc) \cup GroupOps(sc) \cup MergeOps(sc) \cup AsofOps(sc) \cup ConcatOps(sc) \cup SortOps(sc) \cup RowOps(sc) \cup SelfBinOps(sc) \cup FilterOps(sc) \cup ElemOps(sc)
       [] Focus = "knobs" -> ReduceOps(sc) \cup GroupOps(sc) \cup MergeOps(sc) \cup SortOps(sc) \cup RowOps(sc) \cup LayoutOps(sc) \cup FilterOps(sc)
       [] OTHER -> ProjOps(sc) \cup FilterOps(sc) \cup AssignOps(sc) \cup RenameOps(sc) \cup ElemOps(sc) \cup ReduceOps(sc) \cup GroupOps(sc)
-                  \cup MergeOps(sc) \cup ConcatOps(sc) \cup SortOps(sc) \cup RowOps(sc) \cup LayoutOps(sc) \cup SelfBinOps(sc)
+                  \cup MergeOps(sc) \cup AsofOps(sc) \cup ConcatOps(sc) \cup SortOps(sc) \cup RowOps(sc) \cup LayoutOps(sc) \cup SelfBinOps(sc)
+
+(* the rows still carry the sorted integer index of the source table (what merge_asof on the index needs) *)
+RECURSIVE SourceIndexed(_)
+SourceIndexed(x) == x.op = "src" \/ (x.op \in {"filter", "elem", "proj", "assign", "rename", "dropna", "head", "addprefix", "addsuffix"} /\ SourceIndexed(x.c[1]))
 
 VARIABLES q, sc, depth
 vars == <<q, sc, depth>>
 
 Init == q = Src("T1") /\ sc = SrcSchema("T1") /\ depth = 0
 Apply == /\ depth < MaxOps
-         /\ \E o \in Ops(sc) : /\ q' = o[1] @@ [c |-> <<q>>]
+         /\ \E o \in Ops(sc) : /\ (o[1].op = "mergeasof" => SourceIndexed(q))
+                               /\ q' = o[1] @@ [c |-> <<q>>]
                                /\ sc' = [o[2] EXCEPT !.ord = OrdDefined(q'), !.idx = IdxDefined(q')]
          /\ depth' = depth + 1
 Next == Apply
